@@ -3,7 +3,8 @@ Import ListNotations.
 From SM Require Import Base.Num C17.Model C17.Names.
 
 Definition Src := (nat * nat * nat * nat)%type.
-Definition gen (m c h k : nat) : Src := (m, c, h, k).
+(* texts of the model file 20 apart differ only in a parameter default: same generated source *)
+Definition gen (m c h k : nat) : Src := (Nat.modulo m 20, c, h, k).
 (* injective for ids <= 40; small because nat is unary *)
 Definition tag (s : Src) : nat := let '(m, c, h, k) := s in ((m * 41 + c) * 41 + h) * 41 + k.
 
@@ -12,17 +13,20 @@ Definition tag (s : Src) : nat := let '(m, c, h, k) := s in ((m * 41 + c) * 41 +
    whether the history is one the theorem speaks about (every edit advances its file's time). *)
 Definition Case := (file * file * file * file * list op * list (nat * nat * nat * nat) * nat)%type.
 
-Fixpoint loads (outs : list (option Src)) : list Src :=
+Fixpoint loads (outs : list (option (nat * Src))) : list (nat * Src) :=
   match outs with
   | [] => []
   | Some x :: r => x :: loads r
   | None :: r => loads r
   end.
 
-Fixpoint quads_eqb (a b : list Src) : bool :=
+(* model: (definition text, (formula constant, C, header, kernel_iq)); observed: (definition text, C, header, kernel_iq)
+   where the definition text is decoded from the formula constant and the default the evaluation used *)
+Fixpoint quads_eqb (a : list (nat * Src)) (b : list Src) : bool :=
   match a, b with
   | [], [] => true
-  | (x1, x2, x3, x4) :: a', (y1, y2, y3, y4) :: b' => Nat.eqb x1 y1 && Nat.eqb x2 y2 && Nat.eqb x3 y3 && Nat.eqb x4 y4 && quads_eqb a' b'
+  | (d, (x1, x2, x3, x4)) :: a', (y1, y2, y3, y4) :: b' =>
+      Nat.eqb d y1 && Nat.eqb x1 (Nat.modulo y1 20) && Nat.eqb x2 y2 && Nat.eqb x3 y3 && Nat.eqb x4 y4 && quads_eqb a' b'
   | _, _ => false
   end.
 
